@@ -544,6 +544,7 @@ pub fn check(prop: &dyn Property, tier: Tier) -> i32 {
     let mut new_violations = 0u64;
     let mut known_hits = 0u64;
     let mut printed_rules: BTreeSet<String> = BTreeSet::new();
+    let mut unconfirmed: Vec<(String, String, PathBuf, String)> = Vec::new();
 
     // minimisation is bounded in executions and in wall-clock (per violation
     // and in total); the clock only decides how far minimisation gets, never
@@ -622,21 +623,47 @@ pub fn check(prop: &dyn Property, tier: Tier) -> i32 {
             eprintln!("HARNESS ERROR: cannot write {}: {}", path.display(), e);
             return 2;
         }
-        // replay in a fresh process: must fail the same way
-        match verify_replay_fresh_process(prop.id(), &path) {
+        // replay in a fresh process: must fail the same way. What the code
+        // under test does may not be a function of the scenario alone (a
+        // race inside the child process, real elapsed time): such a
+        // violation is given three replays, and another scenario that broke
+        // the same rule is tried before it is reported as it stands.
+        let mut verdict = verify_replay_fresh_process(prop.id(), &path);
+        for _ in 0..2 {
+            if verdict.is_ok() {
+                break;
+            }
+            verdict = verify_replay_fresh_process(prop.id(), &path);
+        }
+        match verdict {
             Ok(()) => {
                 println!("violation rule={} detail={}", v.rule, v.detail);
                 println!("VIOLATION property={} replay={}", prop.id(), path.display());
                 exit_code = 1;
             }
             Err(e) => {
-                eprintln!(
-                    "HARNESS ERROR: replay of {} in a fresh process did not reproduce: {}",
-                    path.display(),
-                    e
-                );
-                return 2;
+                unconfirmed.push((v.rule.clone(), v.detail.clone(), path.clone(), e));
+                if unconfirmed.len() < 5 {
+                    // let another scenario that broke this rule be tried
+                    printed_rules.remove(&rule);
+                }
             }
+        }
+    }
+    // violations seen in the batch that no replay showed again: reported
+    // (they happened, the replay file says what was run and what was seen),
+    // marked as not replaying, unless a replaying violation was reported
+    if exit_code == 0 {
+        if let Some((rule, detail, path, why)) = unconfirmed.first() {
+            println!("violation rule={} detail={}", rule, detail);
+            println!(
+                "note: seen in the batch but not in 3 fresh-process replays of {} ({}); the behaviour is not a function of the scenario alone - {} scenario(s) of this kind",
+                path.display(),
+                why.lines().next().unwrap_or("").chars().take(160).collect::<String>(),
+                unconfirmed.len()
+            );
+            println!("VIOLATION property={} replay={}", prop.id(), path.display());
+            exit_code = 1;
         }
     }
 
